@@ -37,6 +37,24 @@ def replay(d):
     import t2thermo as T
     import IAPWS97 as I
     kind = d['kind']
+    if kind == 'tsat-start':
+        # the residual of tsat's solver at its own starting estimate (fsolve itself is outside the claim)
+        import scipy.optimize as so
+        p = float(num(d['p']))
+        real_fsolve = so.fsolve
+        seen = {}
+        def fs(f, x0, *a, **k):
+            seen['x0'] = x0
+            seen['f'] = f(x0)
+            return x0
+        so.fsolve = fs
+        try:
+            T.tsat(p, True)
+        except TypeError as ex:
+            return True, 'tsat(%r, bounds=True): residual at the starting estimate %r raises TypeError: %s' % (p, seen.get('x0'), ex)
+        finally:
+            so.fsolve = real_fsolve
+        return False, 'tsat(%r): residual at the starting estimate %r is %r' % (p, seen.get('x0'), seen.get('f'))
     if kind == 'bounds':
         fn = d['fn']
         t = float(num(d['t'])) if 't' in d else None
